@@ -44,6 +44,7 @@ FIELDS = {
     "stream": [None, "QueueStream", "StdoutStream"],
     "args": [None, "--a 1", "--b '2 3'"],
     "working_dir": [None, "/tmp", "/"],
+    "autostart": [None, False],
 }
 
 
@@ -76,6 +77,8 @@ def render(model):
             lines.append("use_sockets = True")
         if wm.get("copy_env"):
             lines.append("copy_env = True")
+        if wm.get("autostart") is False:
+            lines.append("autostart = False")
         if wm.get("myopt") is not None:
             lines.append("myopt = %s" % wm["myopt"])
         if wm.get("args") is not None:
@@ -261,6 +264,18 @@ def _execute(case, environ0):
                             dict((kk, (want or {}).get(kk)) for kk in diff))))
                 np_model = model["watchers"][n]["numprocesses"]
                 live = sorted(w.eff_live(n))
+                if model["watchers"][n].get("autostart") is False:
+                    # a fresh start on this file leaves it stopped
+                    classes.add('autostart-false')
+                    st_ = h.status(n)
+                    if live or st_ != 'stopped':
+                        viols.append(Violation(
+                            'C12:autostart-false-watcher-started:%s' % kind,
+                            'watcher %s %s: the file says autostart = False '
+                            '(a fresh start leaves it stopped), the daemon '
+                            'reports %r with workers %r' % (
+                                n, where, st_, live)))
+                    continue
                 if len(live) != np_model:
                     sig = 'C12:process-count:%s' % kind
                     if h.status(n) == 'stopped' and any(
@@ -348,7 +363,8 @@ def _strategy():
             "stream": st.sampled_from([None, None, "QueueStream",
                                        "StdoutStream"]),
             "args": st.sampled_from([None, None, "--a 1"]),
-            "working_dir": st.sampled_from([None, None, "/tmp"])})
+            "working_dir": st.sampled_from([None, None, "/tmp"]),
+            "autostart": st.sampled_from([None, None, None, None, False])})
     names = ['w1', 'W2', 'Web3']
 
     @st.composite
@@ -387,7 +403,7 @@ def _strategy():
                 field = draw(st.sampled_from(
                     ['numprocesses', 'numprocesses', 'numprocesses', 'cmd',
                      'graceful_timeout', 'priority', 'myopt', 'env',
-                     'stream', 'args', 'working_dir']))
+                     'stream', 'args', 'working_dir', 'autostart']))
                 edits.append(['set', draw(st.sampled_from(names)), field,
                               draw(st.sampled_from(FIELDS[field]))])
             elif kind == 'add':
